@@ -72,6 +72,7 @@ def enumerate_cases(tier):
             yield case
     yield from _overlap_cases(tier)
     yield from _late_cases(tier)
+    yield from _digest_fault_cases(tier)
     # short OS-level writes while the object is written (quota / file-size limit): success must still mean true digests
     for algo in ("SHA-256", "SHA-384"):
         for content in ({"hex": "73686f7274"}, {"pat": "ab", "n": 8192 + 1}, {"pat": "cd", "n": 3 * 8192}):
@@ -91,6 +92,44 @@ def _late_cases(tier):
                 for mode in ("late", "one-off"):
                     yield {"family": "faulted-store", "cfg": {"algo": algo, "depth": 2, "width": 2},
                            "contents": [{"pat": "6c61", "n": 8192 + 11}], "prior": prior, "add": add, "cks_algo": ca, "mode": mode}
+
+
+def _digest_fault_cases(tier):
+    """get_hex_digest while a read of the object fails (EIO at the open or at the k-th read): it may raise; a value it RETURNS is
+    the true digest (never the digest of the prefix read so far)."""
+    for algo in ("SHA-256", "MD5"):
+        for asked in ("sha256", "MD5", "sha3_256", "SHA-512") if tier == "quick" else sorted(common.ALL_DIGESTS):
+            yield {"family": "faulted-digest", "cfg": {"algo": algo, "depth": 2, "width": 2},
+                   "contents": [{"pat": "6469", "n": 3 * 65536 + 17}], "asked": asked}
+
+
+def _digest_fault_case(case, ctx):
+    import os
+    from .. import fault, fsi, gen
+    fsi.install()
+    run = seq.Run(dict(case, ops=[]), ctx)
+    data = run.contents[0]
+    ctx.evaluations -= 1
+    d = os.path.join(run.work, "fd")
+    store = common.make_store(d, run.cfg)
+    common.call(store.store_object, "p.a", run.cpaths[0])
+    true = hashlib.new(gen.canon(case["asked"]), data).hexdigest()
+    k = 0
+    while k < 400:
+        inj = fault.Injector(d, k, "EIO", False)
+        with fsi.active(d, inj) as fctx:
+            fctx.read_boundaries = True
+            out = common.call(store.get_hex_digest, "p.a", case["asked"])
+        if inj.fired is None:
+            break
+        ctx.count()
+        if is_ok(out) and out[1] != true:
+            ctx.violation("faulted-digest", f"get_hex_digest(p.a, {case['asked']}) on a {case['cfg']['algo']} store with {inj.describe()} "
+                          f"returned {out[1][:16]}.., the digest of the {len(data)} bytes is {true[:16]}..", {"what": "faulted digest"})
+        ctx.nontrivial(["faulted-digest", case["cfg"]["algo"], case["asked"], inj.fired.kind, k, "ok" if is_ok(out) else out[1]])
+        k += 1
+    ctx.classify("faulted-digest-programs")
+    run.close()
 
 
 def _late_case(case, ctx):
@@ -250,6 +289,8 @@ def run_case(case, ctx):
         return _short_writes_case(case, ctx)
     if case.get("family") == "faulted-store":
         return _late_case(case, ctx)
+    if case.get("family") == "faulted-digest":
+        return _digest_fault_case(case, ctx)
     run = seq.Run(case, ctx)
     prev = []
     # every (pid, algorithm, instance) question asked during the history is asked again at the end
